@@ -67,7 +67,7 @@ def rule_pub1(S):
             if is_store(f, nd):
                 a = call_args(f, nd)
                 arg = f.strip(a[0], casts=True) if a else None
-                localv = arg is not None and (arg['k'] in ('DeclRefExpr', 'IntegerLiteral') or cv_through(f, arg) is not None)
+                localv = arg is not None   # any expression: loads of the shared word inside it are counted as loads
                 rel = True
                 if nd.get('cn') == 'store' and len(a) > 1:
                     rel = cv_through(f, a[1]) in (3, 5)  # memory_order_release / seq_cst
@@ -195,7 +195,14 @@ def interp_shifts(f, env0, max_steps=4000):
                 base = op[:-1] if (k == 'CompoundAssignOperator') else op
                 va, vb = ev(a), ev(b2)
                 if base in ('<<', '>>'):
-                    shifts.append((short_loc(n), base, vb, dict(env)))
+                    # width of the promoted left operand: the type of the shift expression (int: 32, unsigned long: 64)
+                    ty = (n.get('ty') or '')
+                    if k == 'CompoundAssignOperator':
+                        ty = (f.strip(a, casts=False) or {}).get('ty') or ty
+                    width = 32 if ty.replace('const ', '') in ('int', 'unsigned int', 'unsigned', 'std::int32_t', 'std::uint32_t') else \
+                        (16 if 'short' in ty else (8 if ty.replace('const ', '') in ('char', 'unsigned char', 'signed char') else 64))
+                    width = max(width, 32)   # integral promotion
+                    shifts.append((short_loc(n), base, vb, dict(env), width))
                 res = TOP
                 if va is not TOP and vb is not TOP:
                     try:
@@ -277,7 +284,8 @@ def rule_shift(S):
     S.rule('R-SHIFT', 'every shift in class permutation, evaluated by constant propagation for all abstract inputs '
                       'admitted by the preconditions (rank <= count <= 15, rank <= 14; insert_rank: count <= 14, rank <= '
                       'count; delete_rank: 1 <= count, rank <= count - 1; split_dest: num <= 15) and under the branch '
-                      'conditions guarding it, has an amount in [0, 63] (the 60/64-bit edge at rank 14 / count 15)')
+                      'conditions guarding it, has an amount in [0, width of the promoted left operand) - 64 for the word, 32 '
+                      'for an int literal such as `1 << n` (the 60/64-bit edge at rank 14 / count 15)')
     total = 0
     for f in sorted((g for g in facts.functions.values() if g.cls == P and not g.is_lambda), key=lambda g: g.qname):
         has_shift = any(x['k'] in ('BinaryOperator', 'CompoundAssignOperator') and x.get('op') in ('<<', '>>', '<<=', '>>=')
@@ -330,16 +338,16 @@ def rule_shift(S):
             if key in seen_in:
                 continue
             seen_in.add(key)
-            for (loc, op, amt, envs) in interp_shifts(f, env):
+            for (loc, op, amt, envs, width) in interp_shifts(f, env):
                 nsh += 1
                 if amt is TOP:
                     bad.append((loc, op, 'unknown', env))
-                elif not (0 <= amt < 64):
-                    bad.append((loc, op, amt, env))
+                elif not (0 <= amt < width):
+                    bad.append((loc, op, '%s (operand is %d bits wide)' % (amt, width), env))
         total += nsh
         desc = {vname(k): v for k, v in (bad[0][3].items() if bad else [])}
         S.ob('R-SHIFT', f.qname, 'shift amounts (%d abstract inputs, %d evaluations)' % (len(seen_in), nsh), not bad,
-             'all shift amounts lie in [0, 63]' if not bad else
+             'all shift amounts are below the width of the shifted operand' if not bad else
              'shift `%s` by %s at %s for abstract input %s' % (bad[0][1], bad[0][2], bad[0][0], desc),
              loc=bad[0][0] if bad else f.loc, detail=[(b[0], b[1], str(b[2])) for b in bad[:5]] or None)
     S.count('R-SHIFT: shift evaluations', total)
